@@ -165,6 +165,70 @@ def check_C01(pid, tier, seed, t0):
                      "float/time canonical text supplied by the Go formatter (oracle)"])
 
 
+def check_C17(pid, tier, seed, t0):
+    return generic_codec_check(
+        pid, tier, seed, t0,
+        runs=[("tobytes", 3000, 60000, None)],
+        nontrivial=lambda r: (r.get("oracle") or {}).get("C17") == "ok",
+        rule="same generator as C01; every value built through a randomly chosen public route (constructor, "
+             "setter on an empty value, parse, parse-then-set); oracle: field list of the output vs the populated "
+             "leaves computed from the case description; non-trivial = inside the quantifier (no empty value, no "
+             "empty entry) and serialized; distinct = distinct protocol line",
+        assumptions=["every group entry has at least one populated member; values non-empty (theorem hypotheses)",
+                     "float/time canonical text supplied by the Go formatter (oracle)"])
+
+
+def check_C02(pid, tier, seed, t0):
+    return generic_codec_check(
+        pid, tier, seed, t0,
+        runs=[("roundtrip", 3000, 50000, None), ("lookup", 150, 1500, None)],
+        nontrivial=lambda r: r["mode"] == "roundtrip" and r["impl"].startswith("OK"),
+        rule="random templates with pairwise distinct tags (look-alike tags d.t / t.d included), nested groups and "
+             "components to depth 5, every entry populating its first field, values of all seven types with text "
+             "resembling other fields; serialize, parse into the empty template (strict and non-strict), compare typed "
+             "getters and re-serialized bytes; non-trivial = round trip parsed; distinct = distinct protocol line",
+        assumptions=["distinct tags per template, first field of each entry populated, values non-empty and SOH-free",
+                     "ParseFloat(FormatFloat x) = x and Parse(Format t) = t for ms-precision UTC times (Go stdlib, oracle)"])
+
+
+def check_C18(pid, tier, seed, t0):
+    return generic_codec_check(
+        pid, tier, seed, t0,
+        runs=[("lookup", 300, 4000, None)],
+        nontrivial=lambda r: r["mode"] == "valbytag" or r["impl"].startswith("OK"),
+        rule="messages whose values contain 't=' for template tags t (plain, count, first-of-group, MsgType, MsgSeqNum, "
+             "CheckSum) and whose templates contain tags with a template tag as proper decimal suffix/prefix; every tag "
+             "and its look-alikes looked up with ValueByTag against an independent boundary-anchored tokenizer; the "
+             "message itself round-tripped; distinct = distinct protocol line",
+        assumptions=["well-formed messages: tags are digit strings, values SOH-free"])
+
+
+def check_C03(pid, tier, seed, t0):
+    return generic_codec_check(
+        pid, tier, seed, t0,
+        runs=[("damage", 40, 600, None)],
+        nontrivial=lambda r: r["mode"] == "damage" and (r.get("oracle") or {}).get("C03") == "ok" or r["mode"] == "validate",
+        rule="for every generated valid message the whole damage neighbourhood (255*n substitutions, 256*(n-1) "
+             "insertions, n deletions, n prefixes) is run through Unmarshal in strict and non-strict mode on the "
+             "implementation; the model is run (validate_raw) on a stratified sample of variants and on every accepted "
+             "one; one message in seven has NUL bytes in BeginString; distinct = distinct protocol line",
+        assumptions=["values SOH-free; the parsed-into message type has the sender's BeginString"])
+
+
+def check_C11(pid, tier, seed, t0):
+    return generic_codec_check(
+        pid, tier, seed, t0,
+        runs=[("decode", 20000, 1000000, None)],
+        nontrivial=lambda r: True,
+        rule="five streams: arbitrary bytes; hostile bodies framed with a solved BodyLength/CheckSum so that they pass "
+             "the integrity check (missing '=', empty values, repeated delimiters, count tags at the end, wrong counts); "
+             "structural mutations of valid messages re-framed; ValueByTag on arbitrary/truncated data with exact, "
+             "empty, prefix and suffix tags; fixed corner cases; each against a random nested-group template, under a "
+             "5 s watchdog; result kind and parsed projection compared with the model; distinct = distinct protocol line",
+        assumptions=["header and trailer components are set on the message type (NewMessage without SetHeader is unusable "
+                     "even for serialization)"])
+
+
 def replay(pid, obj):
     case = obj.get("case") or (obj.get("first_mismatch") or {}).get("case")
     if not case:
